@@ -28,7 +28,8 @@ RULE = (
     "least one filtered row or a window. Distinct = hash of the case record."
 )
 ASSUMPTIONS = [
-    "the forward model is SinglePhaseReservoir with 80 nodes on FlowProperties(table, p_initial), simulated on days/tau with the frac-face schedule (the anchored mechanism); comparison is exact (array_equal)",
+    "the harness re-simulates with the node count the objective is observed to use (80 on this tree; the fitting module's reservoir class is wrapped for one probe evaluation per case): a finer model is accepted, a coarser one than the anchored 80 nodes is a violation",
+    "the forward model is SinglePhaseReservoir with 80 nodes on FlowProperties(table, p_initial), simulated on days/tau with the frac-face schedule (the anchored mechanism); comparison to rounding level (1e-10 M)",
     "limits: 30 <= tau <= 2 (n_rows - 1), cumulative production before the last row <= M <= inplace_max, max frac-face pressure <= p_initial <= pressure_imax",
     "an unfiltered table with a missing pressure is outside what the function accepts (not generated)",
 ]
@@ -95,11 +96,43 @@ def schedule(c):
     return np.clip(pf, 20.0, 0.97 * c["p_i"])
 
 
+NX_ANCHORED = 80  # the objective's single-phase model has 80 nodes (anchored mechanism of the property)
+_NX = {"observed": None}
+
+
+def observe_nx(FP, call):
+    """Run `call()` while recording the node count of every reservoir the fitting module builds.
+
+    The statement speaks of "the library's own variable-pressure simulation"; its resolution is an anchored
+    mechanism (80 nodes), not part of the statement.  The harness therefore re-simulates with the node count the
+    objective actually used - a finer model must not raise an alarm - and reports a coarser one as a violation."""
+    cls = getattr(FP, "SinglePhaseReservoir", None)
+    if cls is None or not isinstance(cls, type):
+        return call()
+    seen = []
+
+    class Recording(cls):
+        def __init__(self, nx, *a, **k):
+            seen.append(int(nx))
+            super().__init__(nx, *a, **k)
+
+    Recording.__name__ = cls.__name__
+    Recording.__qualname__ = cls.__qualname__
+    FP.SinglePhaseReservoir = Recording
+    try:
+        return call()
+    finally:
+        FP.SinglePhaseReservoir = cls
+        if seen:
+            _NX["observed"] = seen[0] if len(set(seen)) == 1 else min(seen)
+
+
 def forward(table, days, tau, p_i, pf):
     """The library's own variable-pressure simulation, called by the harness."""
     from bluebonnet.flow import FlowProperties, SinglePhaseReservoir
 
-    r = SinglePhaseReservoir(80, p_i, p_i, FlowProperties(table, p_i))
+    nx = _NX["observed"] if _NX["observed"] and _NX["observed"] >= NX_ANCHORED else NX_ANCHORED
+    r = SinglePhaseReservoir(nx, p_i, p_i, FlowProperties(table, p_i))
     r.simulate(days / tau, pressure_fracface=pf)
     return np.asarray(r.recovery_factor(), float)
 
@@ -120,6 +153,16 @@ def check_case(case) -> Result:
     c = dict(case, p_i=p_i)
     pf = schedule(c)
     days = np.arange(n, dtype=float)
+    _NX["observed"] = None
+    probe = Parameters()
+    probe.add("tau", value=tau)
+    probe.add("M", value=M)
+    probe.add("p_initial", value=p_i)
+    lib("_obj_function", observe_nx, FP, lambda: FP._obj_function(probe, days[:3], np.zeros(3), table, pf[:3]))
+    res.labels["objective_nx"] = str(_NX["observed"])
+    if _NX["observed"] is not None and _NX["observed"] < NX_ANCHORED:
+        res.bad("C18/objective-is-forward-model-minus-production", f"the objective simulates with {_NX['observed']} nodes, coarser than the {NX_ANCHORED}-node model the fit is documented to use")
+        return res
     rf = lib("forward simulation", forward, table, days, tau, p_i, pf)
     cum = M * rf
     levels = len(set(np.round(pf, 6)))
@@ -139,7 +182,8 @@ def check_case(case) -> Result:
         p2 = float(np.max(pf)) + e["p_i"] * (float(table["pressure"].iloc[-1]) * 0.99 - float(np.max(pf)))
         out2 = np.asarray(lib("_obj_function", FP._obj_function, params(t2, m2, p2), days, cum, table, pf), float)
         want = m2 * lib("forward simulation", forward, table, days, t2, p2, pf) - cum
-        if out2.shape != want.shape or not np.array_equal(out2, want):
+        # equal up to rounding: the objective may form days/tau, M*rf in another order than the harness does
+        if out2.shape != want.shape or not np.allclose(out2, want, rtol=0, atol=1e-10 * m2 + 1e-12 * float(np.max(np.abs(cum)))):
             k = int(np.argmax(np.abs(out2 - want))) if out2.shape == want.shape else 0
             res.bad("C18/objective-is-forward-model-minus-production", f"objective at (tau={t2!r}, M={m2!r}, p_initial={p2!r}) differs from M*recovery - production: element {k}: {out2[k] if out2.shape == want.shape else out2.shape!r} vs {want[k]!r}")
         res.nontrivial = levels >= 2
